@@ -359,6 +359,13 @@ def step (line : String) : String :=
         | none => "err"
         | some c => nodeS c
       pure (okS (" ; ".intercalate (pat.toList.map fun _ => one)))
+  -- bulk derivation with every interval shape `range(*interval)` accepts: arity 1 `(b,)`, 2 `(a, b)`, 3 `(a, b, step)`
+  | ["gen_step", nd, ar, a, b, st, prf] => orBad do
+      let nd ← unnode nd; let ar ← unnat ar; let a ← unint a; let b ← unint b; let st ← unint st; let prf ← unprf prf
+      let (a', st') := if ar = 1 then ((0 : Int), (1 : Int)) else if ar = 2 then (a, (1 : Int)) else (a, st)
+      pure (match Bip32.generateChildrenStep (primsWith prf []) nd a' b st' with
+        | none => "err"
+        | some cs => okS (if cs.isEmpty then "L" else "L " ++ " / ".intercalate (cs.map nodeS)))
   | ["master", seed, t, prf] => orBad do
       let seed ← unhex seed; let t ← unbool t; let prf ← unprf prf
       pure (optS nodeS (Bip32.masterKey (primsWith prf []) seed t))
@@ -587,6 +594,11 @@ def step (line : String) : String :=
   | ["scr_repr", a] => orBad do
       let a ← unlist uncmd a; pure (okS (strS (Extra.scriptRepr a)))
   -- EXTRA: wallet_utils.py
+  | ["ver_bip", v] => orBad do let v ← unnat v; pure (okS (toString (Path.versionBip v)))
+  | ["ver_valid", v] => orBad do let v ← unnat v; pure (okS (boolS (Path.validVersion v)))
+  | ["ver_parse", v] => orBad do
+      let v ← unnat v
+      pure (optS (fun (x : Path.Version) => s!"{x.keyType} {x.bip} {boolS x.testnet}") (Path.Version.parse v))
   | ["ver_list", which] => orBad do
       let l ← match which with
         | "main" => some Extra.mainnetVersions
